@@ -96,6 +96,46 @@ def err_tree(R, exc):
     return "(leaf)"
 
 
+def leaf_iterated(world, cfg, ty, p) -> bool:
+    """Does structuring p as ty iterate a `str` / `bytes` payload (a collection / heterogeneous-tuple / NamedTuple /
+    tuple-strategy class position holding a str or bytes)?  Only used to label the histograms of the checks: the model
+    covers these cases (Lean `stLF` / `stLD`), the evidence shows how many of them were compared."""
+    if ty is None or isinstance(ty, str):
+        return False
+    k, t = ty[0], p[0]
+    leaf = t in ("s", "y")
+
+    def items():
+        if t in ("l", "t", "q", "S", "F"):
+            return list(p[1])
+        if t == "d":
+            return [a for a, _ in p[1]]
+        return []
+
+    if k in ("list", "seq", "mseq", "tup*", "deque", "set", "mset", "fset"):
+        return leaf or any(leaf_iterated(world, cfg, ty[1], x) for x in items())
+    if k == "tup":
+        return leaf or any(leaf_iterated(world, cfg, a, x) for a, x in zip(ty[1], items()))
+    if k == "nt":
+        fts = [f["ty"] for f in world["classes"][ty[1]]["fields"]]
+        return leaf or any(leaf_iterated(world, cfg, a, x) for a, x in zip(fts, items()))
+    if k in ("dict", "map", "mmap"):
+        return t == "d" and any(leaf_iterated(world, cfg, ty[1], a) or leaf_iterated(world, cfg, ty[2], b) for a, b in p[1])
+    if k in ("opt", "new", "ann", "final", "alias"):
+        return leaf_iterated(world, cfg, ty[1], p)
+    if k in ("cls", "td"):
+        fds = world["classes"][ty[1]]["fields"]
+        if k == "cls" and cfg["tuple"]:
+            return leaf or any(leaf_iterated(world, cfg, f["ty"], x) for f, x in zip(fds, items()))
+        if t != "d":
+            return False
+        d = {a[1]: b for a, b in p[1] if a[0] == "s"}
+        return any(f["name"] in d and leaf_iterated(world, cfg, f["ty"], d[f["name"]]) for f in fds)
+    if k == "union":
+        return any(leaf_iterated(world, cfg, ("cls", m), p) for m in ty[1])
+    return False
+
+
 class Session:
     """One world, realised once, with a converter per configuration and the model loaded with it."""
 
